@@ -3,7 +3,7 @@ use parity_scale_codec::{Compact, Decode, Encode};
 #[derive(Encode, Decode)]
 pub enum T {
 	#[codec(index = 0)] V0,
-	#[codec(skip)] #[codec(index = 255)] V1,
+	#[codec(index = 255)] #[codec(skip)] V1,
 	#[codec(index = 2)] V2,
 }
 fn main() {}
